@@ -1,0 +1,37 @@
+//go:build verif
+
+package ociauth
+
+import (
+	"sync/atomic"
+	"time"
+)
+
+// Verification hooks (build tag verif): a virtual clock for token expiry.
+// Nothing here is compiled into normal builds.
+
+var (
+	verifOffset atomic.Int64 // nanoseconds added to every time the package reads
+	verifFrozen atomic.Int64 // if non-zero, UnixNano of the instant real time was frozen at
+)
+
+// VerifAdvance moves ociauth's notion of "now" forward by d.
+func VerifAdvance(d time.Duration) { verifOffset.Add(int64(d)) }
+
+// VerifResetClock removes any offset and unfreezes the clock.
+func VerifResetClock() { verifOffset.Store(0); verifFrozen.Store(0) }
+
+// VerifFreezeClock stops the flow of real time as seen by ociauth: from now on
+// its clock only moves through VerifAdvance.
+func VerifFreezeClock() { verifFrozen.Store(time.Now().UnixNano()) }
+
+// VerifNow returns ociauth's current notion of now.
+func VerifNow() time.Time { return verifShift(time.Now().UTC()) }
+
+func verifShift(t time.Time) time.Time {
+	t = t.Add(time.Duration(verifOffset.Load()))
+	if f := verifFrozen.Load(); f != 0 {
+		t = t.Add(-time.Duration(time.Now().UnixNano() - f))
+	}
+	return t
+}
